@@ -116,6 +116,10 @@ func (ds c11Devs) String() string {
 	return s
 }
 
+// c11WeightsOnce: the training program asks the layer for its Weights() ONCE, before the loop,
+// and keeps the pointers (both usages are legitimate; the pointers address the layer's fields).
+var c11WeightsOnce bool
+
 func c11Run(m c11Model, x, t *ref.T, init c11Weights, defaultInit bool, steps int, dev c11Devs) core.Verdict {
 	var fc *layers.FC
 	var err error
@@ -133,6 +137,10 @@ func c11Run(m c11Model, x, t *ref.T, init c11Weights, defaultInit bool, steps in
 	}
 	opt := m.lr.opt()
 	lr := m.lr.value()
+	var wsOnce []layers.Weight
+	if c11WeightsOnce {
+		wsOnce = fc.Weights()
+	}
 	// one activation object and one loss object for the whole run, as in a real training program
 	rt.ObjCache = map[string]any{}
 	defer func() { rt.ObjCache = nil }()
@@ -210,7 +218,10 @@ func c11Run(m c11Model, x, t *ref.T, init c11Weights, defaultInit bool, steps in
 			}
 			_ = ye
 		}
-		ws := fc.Weights()
+		ws := wsOnce
+		if ws == nil {
+			ws = fc.Weights()
+		}
 		for k := 0; k < 2; k++ {
 			before := *ws[k].Value
 			if dev.has("skipupdate", s, k) {
@@ -442,6 +453,8 @@ func checkC11(c *core.Ctx) {
 											init.b = ref.Map(init.b, func(v float64) float64 { return -math.Abs(v) })
 											t = ref.FullOf(t.Shape, 0)
 										}
+										c11WeightsOnce = (ini+B+D+O+len(dev))%2 == 1
+										defer func() { c11WeightsOnce = false }()
 										return c11Run(m, x, t, init, ini == 2, steps, dev)
 									})
 								}
